@@ -49,15 +49,22 @@ def factorial_arg(prog: Program, col: Collector, t: Term, where: str, fn: str):
     import math
     if is_call_to(t, *FACT) and len(t[2]) == 1:
         return t[2][0]
-    if t[0] in ("ifexp", "phi") and is_call_to(t[3], *FACT) and len(t[3][2]) == 1 and t[2][0] == "index" and t[2][2] == t[3][2][0] and t[2][1][0] == "global":
+    if t[0] in ("ifexp", "phi") and is_call_to(t[3], *FACT) and len(t[3][2]) == 1 and t[2][0] == "index" and t[2][2] == t[3][2][0] and t[2][1][0] in ("global", "tuple"):
         k, table = t[3][2][0], t[2][1]
         if t[1] not in (("cmp", "<", k, ("call", ("global", "len"), (table,), ())),):
             return None
-        gv = prog.global_value(table[1])
-        if gv is None or not isinstance(gv[1], (ast.Tuple, ast.List)) or not all(isinstance(x, ast.Constant) and type(x.value) is int for x in gv[1].elts):
-            return None
-        wrong = [(i, x.value) for i, x in enumerate(gv[1].elts) if x.value != math.factorial(i)]
-        col.check(not wrong, where, fn, f"every entry i of the factorial table {table[1].rsplit('.', 1)[-1]} is i!"
+        if table[0] == "tuple":
+            # a module-level tuple of literals is read through as its value
+            if not all(x[0] == "const" and type(x[1]) is int for x in table[1]):
+                return None
+            entries, tname = [x[1] for x in table[1]], "(literal tuple)"
+        else:
+            gv = prog.global_value(table[1])
+            if gv is None or not isinstance(gv[1], (ast.Tuple, ast.List)) or not all(isinstance(x, ast.Constant) and type(x.value) is int for x in gv[1].elts):
+                return None
+            entries, tname = [x.value for x in gv[1].elts], table[1].rsplit('.', 1)[-1]
+        wrong = [(i, x) for i, x in enumerate(entries) if x != math.factorial(i)]
+        col.check(not wrong, where, fn, f"every entry i of the factorial table {tname} is i!"
                   + (f" (entry {wrong[0][0]} is {wrong[0][1]}, {wrong[0][0]}! = {math.factorial(wrong[0][0])})" if wrong else ""),
                   construct="factorial-table", necessity="a mistyped table entry changes every Shapley weight (and the divisor n!) for exactly the player counts that reach it", rule="S1")
         return k
